@@ -22,7 +22,7 @@
 //! Oracle: the same call single-threaded (and the closed form of the sum).
 
 use super::share::{Bad, Case, announce};
-use roto::{FileTree, NoCtx, Runtime, TypedFunc, library};
+use roto::{FileTree, NoCtx, Runtime, TypedFunc, Val, library};
 use rotov_harness::Report;
 use serde_json::json;
 use std::sync::Arc;
@@ -96,8 +96,34 @@ impl Meet {
     }
 }
 
+/// a host value that crosses the host boundary by reference in both directions
+/// (argument: pointer into the host's frame; result: the host's return buffer)
+#[derive(Clone, PartialEq, Debug)]
+pub struct Blob {
+    words: [u64; BLOB_WORDS],
+}
+
+const BLOB_WORDS: usize = 32;
+
+impl Blob {
+    fn new(x: u64) -> Self {
+        let mut words = [0u64; BLOB_WORDS];
+        for (k, w) in words.iter_mut().enumerate() {
+            *w = x + k as u64;
+        }
+        Blob { words }
+    }
+    fn sum(&self) -> u64 {
+        self.words.iter().fold(0u64, |a, w| a.wrapping_add(*w))
+    }
+}
+
 fn runtime(meet: Arc<Meet>) -> Runtime<NoCtx> {
     let lib = library! {
+
+        /// 32 words, passed and returned by reference
+        #[clone] type Blob = Val<Blob>;
+
         /// all calling threads wait here for each other; returns 0
         let meet = move |_tag: u64| -> u64 {
             meet.wait();
@@ -179,6 +205,11 @@ pub fn source(rows: usize) -> String {
     // ret: a callee's local returned through the caller's return slot
     s += &format!("fn made(x: u64) -> T {{\n  let t = make(x);\n  let w = meet(x);\n  t.{first} = t.{first} + w;\n  t\n}}\n");
     s += "fn ret(x: u64, rounds: u64) -> u64 {\n  let t = made(x);\n  let u = made(x + rounds);\n  sum(t) + sum(u)\n}\n";
+    // host: the argument lives in the host's frame, the result goes to the host's return buffer
+    // (the result reaches the return buffer only with the last copy before `return`: that window cannot be
+    // widened from a script, so for the return buffer the free-running phase is a stress test, not a decision)
+    s += "fn pass(b: Blob, x: u64) -> Blob {\n  let keep = b;\n  let w = meet(x);\n  if w == 0 { keep } else { b }\n}\n";
+    s += "fn host(b: Blob, x: u64) -> Blob { pass(b, x) }\n";
     // recursive: a local that is live across the recursive call
     s += "fn recursive(x: u64, d: u64) -> u64 {\n  let t = make(x + d);\n  let below = if d > 0 { recursive(x, d - 1) } else { 0 };\n  sum(t) + below\n}\n";
     s
@@ -217,11 +248,15 @@ pub fn expected(rows: usize, role: &str, x: u64, k: u64) -> u64 {
         "local" => total(rows, x) + 2 * k + 2 * x + 1,
         "arg" => total(rows, x + k),
         "ret" => total(rows, x) + total(rows, x + k),
+        "host" => Blob::new(x).sum(),
         _ => (0..=k).map(|d| total(rows, x + d)).sum(),
     }
 }
 
 pub const ROLES: [&str; 4] = ["local", "arg", "ret", "recursive"];
+/// + `host`: a `Val<Blob>` argument and result across the host boundary
+pub const CONCURRENT_ROLES: [&str; 4] = ["local", "arg", "ret", "host"];
+type FH = TypedFunc<NoCtx, fn(Val<Blob>, u64) -> Val<Blob>>;
 
 type F2 = TypedFunc<NoCtx, fn(u64, u64) -> u64>;
 
@@ -280,6 +315,14 @@ fn frame_slots_inner(c: &Case, rep: &mut Report) {
         }
     }
 
+    let fh: FH = match pkg.get_function("host") {
+        Ok(f) => f,
+        Err(e) => {
+            rep.mismatch("share frame-slots: function not retrievable", json!({"case": case, "role": "host", "error": format!("{e:?}")}));
+            return;
+        }
+    };
+
     // per thread two arguments, all distinct
     let xs: Vec<[u64; 2]> = (0..n_threads as u64).map(|t| [1 + 100_000 * (t + 1) + p.below(5000), 7 + 100_000 * (t + 11) + p.below(5000)]).collect();
 
@@ -311,9 +354,40 @@ fn frame_slots_inner(c: &Case, rep: &mut Report) {
         }
     }
 
+    for x in xs.iter().flatten() {
+        let got = fh.call(Val(Blob::new(*x)), *x).0;
+        rep.evaluations += 1;
+        if got != Blob::new(*x) {
+            rep.mismatch(
+                "share frame-slots: a single-threaded call does not return the host value it was given",
+                json!({"case": case, "role": "host", "x": x, "got": format!("{:?}", &got.words[..4]), "source": src}),
+            );
+            return;
+        }
+    }
+
     // concurrent: phase 1 with the rendezvous armed, phase 2 free-running
-    for (ri, role) in ROLES.iter().enumerate().take(3) {
-        let f = &fs[ri];
+    for (ri, role) in CONCURRENT_ROLES.iter().enumerate() {
+        // one caller per thread: even threads share the handle, odd threads own a clone
+        let callers: Vec<Box<dyn Fn(u64, u64) -> u64 + Send + Sync + '_>> = (0..n_threads)
+            .map(|tid| -> Box<dyn Fn(u64, u64) -> u64 + Send + Sync + '_> {
+                if *role == "host" {
+                    if tid % 2 == 1 {
+                        let h = fh.clone();
+                        Box::new(move |x, _k| h.call(Val(Blob::new(x)), x).0.sum())
+                    } else {
+                        let h = &fh;
+                        Box::new(move |x, _k| h.call(Val(Blob::new(x)), x).0.sum())
+                    }
+                } else if tid % 2 == 1 {
+                    let h = fs[ri].clone();
+                    Box::new(move |x, k| h.call(x, k))
+                } else {
+                    let h = &fs[ri];
+                    Box::new(move |x, k| h.call(x, k))
+                }
+            })
+            .collect();
         for (phase, calls) in [("rendezvous", met_calls), ("free-running", free_calls)] {
             println!("PHASE concurrent {role} {phase}");
             meet.arrived.store(0, Ordering::SeqCst);
@@ -322,15 +396,12 @@ fn frame_slots_inner(c: &Case, rep: &mut Report) {
             let start = std::sync::Barrier::new(n_threads);
             std::thread::scope(|s| {
                 for tid in 0..n_threads {
-                    let (bad, start, xs) = (&bad, &start, &xs);
-                    // even threads share the handle, odd threads own a clone
-                    let own = if tid % 2 == 1 { Some(f.clone()) } else { None };
+                    let (bad, start, xs, call) = (&bad, &start, &xs, &callers[tid]);
                     std::thread::Builder::new().stack_size(STACK).spawn_scoped(s, move || {
-                        let h: &F2 = own.as_ref().unwrap_or(f);
                         start.wait();
                         for m in 0..calls {
                             let x = xs[tid][(m % 2) as usize];
-                            let got = h.call(x, rounds);
+                            let got = call(x, rounds);
                             let want = expected(rows, role, x, rounds);
                             if got != want {
                                 bad.push(json!({"thread": tid, "handle": if tid % 2 == 1 { "cloned" } else { "shared" }, "call": m, "x": x, "rounds": rounds, "got": got, "single_threaded": want}));
@@ -346,7 +417,11 @@ fn frame_slots_inner(c: &Case, rep: &mut Report) {
             let bad = bad.take();
             if !bad.is_empty() {
                 rep.violation(
-                    "a call made while other threads were inside the same function (through shared and cloned handles) returned something else than the same call single-threaded: a by-reference local / temporary / return slot is not private to the activation",
+                    if *role == "host" {
+                        "a call made while other threads were inside the same function (through shared and cloned handles) returned another host value than the one it was given: the by-reference argument / the return buffer of the host is not private to the call"
+                    } else {
+                        "a call made while other threads were inside the same function (through shared and cloned handles) returned something else than the same call single-threaded: a by-reference local / temporary / return slot is not private to the activation"
+                    },
                     &format!("share-frame-slot-interference:{role}"),
                     json!({"case": case, "observed": {"role": role, "phase": phase, "rows": rows, "slot_bytes": bytes, "threads": n_threads, "calls_per_thread": calls,
                         "rendezvous_rounds": meet.met.load(Ordering::Relaxed), "mismatches": bad}, "source": src}),
@@ -368,7 +443,7 @@ fn frame_slots_inner(c: &Case, rep: &mut Report) {
     };
     rep.class(format!("share frame-slots bytes{size_class} t={n_threads}"));
     rep.sample(json!({"case": case, "family": "frame-slots", "rows": rows, "slot_bytes": bytes, "threads": n_threads, "rendezvous_rounds": meet.met.load(Ordering::Relaxed),
-        "free_calls_per_thread": free_calls, "roles": ROLES, "source_head": src.chars().take(400).collect::<String>()}));
+        "free_calls_per_thread": free_calls, "roles": ["local", "arg", "ret", "host", "recursive"], "source_head": src.chars().take(400).collect::<String>()}));
     drop(fs);
     drop(pkg);
 }
